@@ -170,4 +170,61 @@ theorem fillS_eq (bs : List (Fin 4)) (st : State) (x : UInt32 × UInt32) :
   | cons b rest ih =>
     rw [fillS_cons, fillBox_eq, ih, toSpec_ofSpec, Prod.eta, List.foldl_cons, Spec.Blowfish.fillBox]
 
+/-- big-endian word -/
+def beWord (a b c d : UInt8) : UInt32 :=
+  (a.toUInt32 <<< 24) ||| (b.toUInt32 <<< 16) ||| (c.toUInt32 <<< 8) ||| d.toUInt32
+
+theorem keyWord_0 (k0 k1 k2 k3 k4 k5 k6 k7 : UInt8) (rest : Bytes) :
+    keyWord (k0 :: k1 :: k2 :: k3 :: k4 :: k5 :: k6 :: k7 :: rest) 4 0 0 = some (beWord k0 k1 k2 k3, 4) := by
+  simp [keyWord, blowfishKeyBytes, beWord]
+  bv_decide
+
+theorem keyWord_4 (k0 k1 k2 k3 k4 k5 k6 k7 : UInt8) (rest : Bytes) :
+    keyWord (k0 :: k1 :: k2 :: k3 :: k4 :: k5 :: k6 :: k7 :: rest) 4 0 4 = some (beWord k4 k5 k6 k7, 0) := by
+  simp [keyWord, blowfishKeyBytes, beWord]
+  bv_decide
+
+theorem spec_keyWord_even (k0 k1 k2 k3 k4 k5 k6 k7 : UInt8) (h) (i : Nat) (hi : i % 2 = 0) :
+    Spec.Blowfish.keyWord [k0, k1, k2, k3, k4, k5, k6, k7] h i = beWord k0 k1 k2 k3 := by
+  have e0 : (4 * i) % 8 = 0 := by omega
+  have e1 : (4 * i + 1) % 8 = 1 := by omega
+  have e2 : (4 * i + 2) % 8 = 2 := by omega
+  have e3 : (4 * i + 3) % 8 = 3 := by omega
+  simp [Spec.Blowfish.keyWord, Spec.Blowfish.keyByte, e0, e1, e2, e3, beWord]
+
+theorem spec_keyWord_odd (k0 k1 k2 k3 k4 k5 k6 k7 : UInt8) (h) (i : Nat) (hi : i % 2 = 1) :
+    Spec.Blowfish.keyWord [k0, k1, k2, k3, k4, k5, k6, k7] h i = beWord k4 k5 k6 k7 := by
+  have e0 : (4 * i) % 8 = 4 := by omega
+  have e1 : (4 * i + 1) % 8 = 5 := by omega
+  have e2 : (4 * i + 2) % 8 = 6 := by omega
+  have e3 : (4 * i + 3) % 8 = 7 := by omega
+  simp [Spec.Blowfish.keyWord, Spec.Blowfish.keyByte, e0, e1, e2, e3, beWord]
+
+theorem finRange18 : List.finRange 18 = [0,1,2,3,4,5,6,7,8,9,10,11,12,13,14,15,16,17] := by decide
+
+theorem xorKey_eq (k0 k1 k2 k3 k4 k5 k6 k7 : UInt8) (rest : Bytes) (st : State) (h) :
+    xorKey (k0 :: k1 :: k2 :: k3 :: k4 :: k5 :: k6 :: k7 :: rest) (List.finRange 18) st 0 =
+      some (ofSpec (Spec.Blowfish.xorKey (toSpec st) [k0, k1, k2, k3, k4, k5, k6, k7] h)) := by
+  simp only [finRange18, xorKey, keyWord_0, keyWord_4, Spec.Blowfish.xorKey, List.foldl_cons, List.foldl_nil]
+  simp (disch := decide) only [spec_keyWord_even, spec_keyWord_odd]
+  rfl
+
+theorem new_cons (k0 k1 k2 k3 k4 k5 k6 k7 : UInt8) (rest : Bytes) (h) :
+    new (k0 :: k1 :: k2 :: k3 :: k4 :: k5 :: k6 :: k7 :: rest) =
+      some (ofSpec (Spec.Blowfish.keySchedule (toSpec initial) [k0, k1, k2, k3, k4, k5, k6, k7] h)) := by
+  unfold new
+  rw [xorKey_eq _ _ _ _ _ _ _ _ _ _ h]
+  simp only []
+  rw [fillP_eq, fillS_eq, toSpec_ofSpec, Prod.eta]
+  simp only [Spec.Blowfish.keySchedule, Spec.Blowfish.fillS, Spec.Blowfish.fillP, toSpec_ofSpec]
+
+theorem new_eq : ∀ (key : Bytes) (h : 8 ≤ key.length),
+    new key = some (ofSpec (Spec.Blowfish.keySchedule (toSpec initial) (key.take 8)
+      (by simp only [List.length_take]; omega)))
+  | [], h | [_], h | [_, _], h | [_, _, _], h | [_, _, _, _], h | [_, _, _, _, _], h
+  | [_, _, _, _, _, _], h | [_, _, _, _, _, _, _], h => by simp at h
+  | k0 :: k1 :: k2 :: k3 :: k4 :: k5 :: k6 :: k7 :: rest, _ => by
+    rw [new_cons k0 k1 k2 k3 k4 k5 k6 k7 rest (by simp)]
+    simp only [List.take_succ_cons, List.take_zero]
+
 end Physis.Blowfish
